@@ -17,6 +17,7 @@ PROP = {
         {"name": "sline_api_big", "quick": 30000, "thorough": 400000, "maxlen": 200},
         {"name": "sline_api", "quick": 2000000, "thorough": 20000000, "maxlen": 200},
     ],
+    "uchar": ["vterm_c", "sline_api"],
     "fuzz": [{"name": "vterm_c", "secs": 60, "maxlen": 300}, {"name": "vterm_cxx", "secs": 40, "maxlen": 300}],
 }
 
